@@ -157,9 +157,11 @@ c05_g!(c05_q_g_ellipses, 40, [Ellipse::new(A0, Size::new(0, 3)), Ellipse::new(A1
 c05_g!(c05_q_g_rrects, 32, [rr(A1, 6, 5, [2, 2, 0, 0, 3, 2, 1, 2]), rr(A0, 4, 6, [9, 9, 9, 9, 9, 9, 9, 9]), rr(A1, 3, 0, [1, 1, 1, 1, 1, 1, 1, 1])]);
 // narrow shapes with tall corners: the first and last bounding-box rows hold no pixel (finding F-19)
 c05_g!(c05_q_g_rrects_thin, 20, [rr(A0, 2, 8, [1, 4, 1, 4, 1, 4, 1, 4]), rr(A1, 8, 2, [4, 1, 4, 1, 4, 1, 4, 1])]);
+include!("c05_grid.rs");
 // flat corners (rx >= 4 at ry = 1 and transposed): already the first corner row is shortened
 c05_g!(c05_q_g_rrects_flat_a, 52, [rr(A0, 12, 4, [5, 1, 4, 1, 5, 1, 4, 1])]);
-c05_g!(c05_q_g_rrects_flat_b, 52, [rr(A1, 4, 11, [1, 5, 1, 4, 1, 5, 1, 4])]);
+#[cfg(feature = "thorough")]
+c05_g!(c05_t_g_rrects_flat_b, 52, [rr(A1, 4, 11, [1, 5, 1, 4, 1, 5, 1, 4])]);
 #[cfg(feature = "thorough")]
 c05_g!(c05_t_g_rrects, 40, [rr(A0, 5, 4, [1, 1, 1, 1, 1, 1, 1, 1]), rr(A0, 6, 6, [3, 1, 1, 3, 2, 2, 0, 5]), rr(A1, 6, 3, [12, 3, 12, 3, 12, 3, 12, 3]), rr(A0, 2, 6, [1, 3, 1, 3, 1, 3, 1, 3])]);
 
